@@ -5,6 +5,7 @@ import os, shutil, subprocess, sys, tempfile
 HERE = os.path.dirname(os.path.dirname(os.path.abspath(__file__)))
 REPO = os.environ.get('GECS_REPO', '/repo')
 ST = 'src/archetype/storage.rs'
+GW = 'macros/src/generate/world.rs'
 EDITS = [
     ('rename_local_last_entity', ST, [('last_entity', 'tail_entity')], ['C01', 'C02']),
     ('rename_local_slot_index_usize', ST, [('slot_index_usize', 'slot_ix')], ['C01', 'C03']),
@@ -45,6 +46,44 @@ EDITS = [
     ('destroy_use_local_len', ST, [("""                        let last_dense_index = self.len - 1;""", """                        let current_len = self.len;
                         let last_dense_index = current_len - 1;""")], ['C01', 'C02']),
     ('version_next_explicit_match', 'src/version.rs', [], ['C08']),
+    # ---- generator of the archetype / world layer (world unit)
+    ('gen_comment_in_template', GW, [('// Resolve dispatch implementation', '// Resolve dispatch implementation (one block per archetype)')], ['C01', 'C14']),
+    ('gen_rename_generator_local', GW, [('count_str', 'n_components')], ['C01']),
+    ('gen_reorder_template_fns', GW, [('''            #[inline(always)]
+            fn len(&self) -> usize {
+                self.data.len()
+            }
+
+            #[inline(always)]
+            fn capacity(&self) -> usize {
+                self.data.capacity()
+            }
+''', '''            #[inline(always)]
+            fn capacity(&self) -> usize {
+                self.data.capacity()
+            }
+
+            #[inline(always)]
+            fn len(&self) -> usize {
+                self.data.len()
+            }
+''')], ['C12']),
+    ('gen_any_dispatch_error_arm_returns_absence', GW, [('''                    match entity.try_into() {
+                        #(
+                            Ok(SelectEntity::#Archetype(entity)) =>
+                                self.#archetype.contains(entity),
+                        )*
+                        Err(_) => panic!("invalid entity type"),''', '''                    match entity.try_into() {
+                        #(
+                            Ok(SelectEntity::#Archetype(entity)) =>
+                                self.#archetype.contains(entity),
+                        )*
+                        Err(_) => false,''')], ['C03', 'C01']),
+    ('gen_try_from_explicit_call', GW, [('''                fn try_from(entity: &EntityAny) -> Result<Self, EcsError> {
+                    (*entity).try_into()''', '''                fn try_from(entity: &EntityAny) -> Result<Self, EcsError> {
+                    Self::try_from(*entity)''')], ['C14']),
+    ('gen_traits_default_method_reformatted', 'src/traits.rs', [('''        <Self as ArchetypeCanResolve<K>>::resolve_for(self, entity).is_some()''', '''        let found = <Self as ArchetypeCanResolve<K>>::resolve_for(self, entity);
+        found.is_some()''')], ['C01']),
 ]
 
 def main():
